@@ -247,6 +247,9 @@ def run_job(job, unit_c, workdir, incdirs):
             gres['obligations'].append(dict(name=name, description=r.get('description', ''), status=r.get('status', ''),
                                             file=loc.get('file', ''), line=loc.get('line', ''), function=loc.get('function', ''),
                                             backend=be_name))
+        errs = [o for o in gres['obligations'] if o['status'] not in ('SUCCESS', 'FAILURE')]
+        if errs and not gres['reason']:
+            gres['reason'] = 'back end %s returned status %s for %s' % (be_name, errs[0]['status'], errs[0]['name'])
         got = set(o['name'] for o in gres['obligations'])
         if got != want:
             gres['reason'] = 'cbmc did not report %d selected obligations, e.g. %s' % (len(want - got), sorted(want - got)[0])
